@@ -18,10 +18,14 @@ import (
 )
 
 type c16Case struct {
-	Mode   string   `json:"mode"` // "format" | "compile"
-	Text   string   `json:"text"`
-	Subset []string `json:"subset,omitempty"`
-	Strace bool     `json:"strace,omitempty"`
+	Mode string `json:"mode"` // "format" | "compile"
+	Text string `json:"text"`
+	// Others: further texts; the C library is loaded once and called on Text, Others..., Text again
+	Others []string `json:"others,omitempty"`
+	// OutNames: output directory names for compile mode (parallel to Subset); "" = out/<lang>
+	OutNames []string `json:"out_names,omitempty"`
+	Subset   []string `json:"subset,omitempty"`
+	Strace   bool     `json:"strace,omitempty"`
 	// Stale: the output directories already hold (longer) files of the same names from an earlier run
 	Stale bool `json:"stale,omitempty"`
 }
@@ -70,17 +74,36 @@ func evalC16(k c16Case) []pbt.Violation {
 	}
 	// --- C library
 	if drv, lib := os.Getenv("VERIF_LIBDRIVER"), os.Getenv("VERIF_LIB"); drv != "" && lib != "" {
-		in := filepath.Join(dir, "lib.dsl")
-		_ = os.WriteFile(in, []byte(k.Text), 0o644)
-		r = cli.Run(dir, 60*time.Second, nil, nil, drv, lib, in)
-		got := string(r.Stdout)
-		switch {
-		case r.Exit != 0:
-			vs = append(vs, pbt.Violation{Signature: "clib:call-failed", Detail: fmt.Sprintf("host process exit %d signal %q: %s", r.Exit, r.Signal, clip(string(r.Stderr), 200))})
-		case werr == nil && got != want:
-			vs = append(vs, pbt.Violation{Signature: "clib:result-differs", Detail: fmt.Sprintf("C function returned %q, library result is %q", clip(got, 160), clip(want, 160))})
-		case werr != nil && !strings.HasPrefix(got, "Error:"):
-			vs = append(vs, pbt.Violation{Signature: "clib:no-error-prefix", Detail: fmt.Sprintf("on a syntax error the C function returned %q", clip(got, 160))})
+		// one loaded library, several calls: Text, Others..., each Other twice, Text again
+		seq := []string{k.Text}
+		for _, o := range k.Others {
+			seq = append(seq, o, o)
+		}
+		seq = append(seq, k.Text)
+		args := []string{lib}
+		for i, t := range seq {
+			in := filepath.Join(dir, fmt.Sprintf("lib%d.dsl", i))
+			_ = os.WriteFile(in, []byte(t), 0o644)
+			args = append(args, in)
+		}
+		r = cli.Run(dir, 60*time.Second, nil, nil, drv, args...)
+		gots, okp := cli.ParseLibOutput(r.Stdout)
+		if r.Exit != 0 || !okp || len(gots) != len(seq) {
+			vs = append(vs, pbt.Violation{Signature: "clib:call-failed", Detail: fmt.Sprintf("host process exit %d signal %q, %d of %d results: %s", r.Exit, r.Signal, len(gots), len(seq), clip(string(r.Stderr), 200))})
+		} else {
+			for i, t := range seq {
+				w, e, pm, _ := inproc.Format(t)
+				if pm != "" {
+					continue
+				}
+				got := gots[i]
+				switch {
+				case e == nil && got != w:
+					vs = append(vs, pbt.Violation{Signature: "clib:result-differs", Detail: fmt.Sprintf("call %d of %d in one process: C function returned %q, library result is %q", i+1, len(seq), clip(got, 160), clip(w, 160))})
+				case e != nil && !strings.HasPrefix(got, "Error:"):
+					vs = append(vs, pbt.Violation{Signature: "clib:no-error-prefix", Detail: fmt.Sprintf("call %d of %d in one process: on a syntax error the C function returned %q", i+1, len(seq), clip(got, 160))})
+				}
+			}
 		}
 	}
 	return vs
@@ -114,13 +137,19 @@ func evalC16Compile(k c16Case) []pbt.Violation {
 		}
 		// flags in a shuffled-but-deterministic order: -f may come anywhere after the first flag
 		args = append(args, "-f", in)
-		for _, l := range k.Subset {
-			args = append(args, cli.Flags[l], filepath.Join(dir, "out", l))
+		outDir := map[string]string{}
+		for i, l := range k.Subset {
+			outDir[l] = filepath.Join("out", l)
+			if i < len(k.OutNames) && k.OutNames[i] != "" {
+				outDir[l] = k.OutNames[i]
+			}
+			// relative names: the tool runs with the scratch directory as working directory
+			args = append(args, cli.Flags[l], outDir[l])
 		}
 		if k.Stale {
 			for _, l := range k.Subset {
 				for fname, content := range ref.Files[l] {
-					fp := filepath.Join(dir, "out", l, fname)
+					fp := filepath.Join(dir, outDir[l], fname)
 					_ = os.MkdirAll(filepath.Dir(fp), 0o755)
 					_ = os.WriteFile(fp, append(append([]byte{}, content...), []byte("\n// stale tail of a previous, longer output\n// more\n")...), 0o644)
 				}
@@ -139,7 +168,7 @@ func evalC16Compile(k c16Case) []pbt.Violation {
 		}
 		trees[i] = map[string]map[string][]byte{}
 		for _, l := range k.Subset {
-			trees[i][l] = cli.ReadTree(filepath.Join(dir, "out", l))
+			trees[i][l] = cli.ReadTree(filepath.Join(dir, outDir[l]))
 			if d := inproc.FilesEqual(ref.Files[l], trees[i][l]); d != "" {
 				vs = append(vs, pbt.Violation{Signature: "compile:tree-differs-from-generators:" + l, Detail: fmt.Sprintf("word=%v: %s", word, d)})
 			}
@@ -148,7 +177,7 @@ func evalC16Compile(k c16Case) []pbt.Violation {
 		allowed := map[string]bool{"in.dsl": true, "trace.txt": true}
 		for _, l := range k.Subset {
 			for name := range ref.Files[l] {
-				allowed[filepath.Join("out", l, name)] = true
+				allowed[filepath.Join(outDir[l], name)] = true
 			}
 		}
 		for name := range cli.ReadTree(dir) {
@@ -173,7 +202,13 @@ func evalC16Compile(k c16Case) []pbt.Violation {
 					if e := strings.Index(path, "\""); e >= 0 {
 						path = path[:e]
 					}
-					if strings.HasPrefix(path, filepath.Join(dir, "out")) || strings.HasPrefix(path, "/dev/") || strings.HasPrefix(path, "/proc/") || path == traceFile {
+					inOut := false
+					for _, od := range outDir {
+						if strings.HasPrefix(path, filepath.Join(dir, od)) || strings.HasPrefix(path, od) {
+							inOut = true
+						}
+					}
+					if inOut || strings.HasPrefix(path, "/dev/") || strings.HasPrefix(path, "/proc/") || path == traceFile {
 						continue
 					}
 					vs = append(vs, pbt.Violation{Signature: "compile:writes-elsewhere", Detail: "write-type system call outside the requested directories: " + clip(line, 200)})
@@ -208,11 +243,17 @@ func TestC16(t *testing.T) {
 	c.Check(t, func(rt *rapid.T) {
 		n++
 		if rapid.IntRange(0, 3).Draw(rt, "mode") == 0 {
-			p := dsl.GenProgram(rt, dsl.GenCfg{MaxPackets: 4, Avoid: avoid})
+			p := dsl.GenProgram(rt, dsl.GenCfg{MaxPackets: 4, Avoid: avoid, Shapes: true, AnyOrder: true})
 			sub := drawSubset(rt)
 			// the order of flags on the command line is free
 			sub = rapid.Permutation(sub).Draw(rt, "flag_order")
-			k := c16Case{Mode: "compile", Text: dsl.PlainText(p), Subset: sub, Strace: pbt.Thorough() && n%5 == 0, Stale: rapid.IntRange(0, 2).Draw(rt, "stale_outputs") == 0}
+			k := c16Case{Mode: "compile", Text: dsl.PlainText(p), Subset: sub, Strace: pbt.Thorough() && rapid.IntRange(0, 4).Draw(rt, "strace") == 0, Stale: rapid.IntRange(0, 2).Draw(rt, "stale_outputs") == 0}
+			// output directories whose names look like subcommands or flags' values of the tool itself
+			if rapid.IntRange(0, 2).Draw(rt, "odd_out_names") == 0 {
+				names := rapid.Permutation([]string{"format", "compile", "help", "out dir", "completion", "gen"}).Draw(rt, "out_names")
+				k.OutNames = names[:len(sub)]
+				c.Class("compile-into-directories-named-like-subcommands")
+			}
 			if k.Stale {
 				c.Class("compile-into-stale-directory")
 			}
@@ -238,6 +279,18 @@ func TestC16(t *testing.T) {
 			text = "packet A {}"
 		}
 		k := c16Case{Mode: "format", Text: text}
+		// the C library keeps state between calls only if it is buggy: call it on other texts in between
+		if rapid.Bool().Draw(rt, "lib_sequence") {
+			other := genText(rt, c, dsl.AnywhereComments, false, avoid).Text
+			if rapid.Bool().Draw(rt, "other_invalid") {
+				other = mutate(rt, other)
+			}
+			other = strings.ReplaceAll(other, "\x00", "?")
+			if strings.TrimSpace(other) != "" {
+				k.Others = []string{other}
+				c.Class("library-called-several-times-in-one-process")
+			}
+		}
 		c.Eval()
 		c.Class(cls)
 		if len(tc.Toks) > 3 {
